@@ -30,7 +30,9 @@ RULE = ("real Snapshot.take of random nested app states on 1..3 simulated ranks 
         "key stream ('..', '.', '', key + chunk-offset suffix, keys differing only by escaping). Per case the oracle checks "
         "on the real write log and the real committed manifest: confinement, written-once, existence/size, disjointness, "
         "manifest completeness; the Lean model recomputes every location and resolved path. A case is non-trivial if it "
-        "wrote >= 1 payload object; distinct by (state, knobs, world) hash.")
+        "wrote >= 1 payload object; distinct by (state, knobs, world) hash. Plus real multi-process jobs (gloo, real FS plugin, "
+        "plain keys) whose ranks all seed random/numpy/torch identically before the take: union of the ranks' write logs "
+        "checked for written-once, disjoint ranges, existence, and restored values.")
 TRUSTED = ["uuid4 uniqueness for slab names (batched/<uuid>)",
            "the filesystem resolves a path as posixpath.normpath does (no symlinks under the snapshot root)",
            "flatten's logical paths (tied separately by C15)"]
@@ -364,9 +366,102 @@ CORPUS = [
 ]
 
 
+def _seeded_processes(ctx: Ctx, cfg: Dict[str, Any], idx: int, suite: str = "seeded_processes", verbose: bool = False):
+    """W real processes (gloo, real filesystem plugin, plain keys) that all seed random / numpy / torch with the same
+    value before taking the snapshot - what seed_everything(s) does in a training script.  The oracle is the
+    written-once / disjointness / exists-fits part of C05 over the union of the ranks' real write logs."""
+    import json
+    import shutil
+    import subprocess
+    import sys
+    import time
+    from common import OUT_DIR, REPO
+    W = cfg["W"]
+    root = os.path.join(OUT_DIR, f"c05_proc_{os.getpid()}_{idx}")
+    shutil.rmtree(root, ignore_errors=True)
+    os.makedirs(root)
+    cfg_path = os.path.join(root, "cfg.json")
+    json.dump(cfg, open(cfg_path, "w"))
+    worker = os.path.join(os.path.dirname(os.path.abspath(__file__)), "c05_proc_worker.py")
+    env = dict(os.environ, VERIF_REPO=REPO)
+    procs = [subprocess.Popen([sys.executable, worker, cfg_path, str(r), str(W), os.path.join(root, "init"), root,
+                               os.path.join(root, f"out{r}.json")], env=env, stdout=subprocess.PIPE, stderr=subprocess.STDOUT)
+             for r in range(W)]
+    outs, timed_out = [], False
+    t_end = time.time() + 90
+    for p in procs:
+        try:
+            o, _ = p.communicate(timeout=max(1, t_end - time.time()))
+        except subprocess.TimeoutExpired:
+            timed_out = True
+            p.kill()
+            o, _ = p.communicate()
+        outs.append(o.decode("utf-8", "replace")[-600:])
+    res = []
+    for r in range(W):
+        f = os.path.join(root, f"out{r}.json")
+        res.append(json.load(open(f)) if os.path.exists(f) else None)
+    full = dict(cfg, seeded_processes=True)
+    if timed_out or any(x is None for x in res):
+        # a crash of the job is not a C05 verdict; it is reported as a harness-level observation
+        ctx.count("seeded.job_failed")
+        ctx.notes.append(f"seeded_processes job {idx} did not complete: {outs}")
+        ctx.case(suite, dict(full, completed=False), nontrivial=False, key=full)
+        shutil.rmtree(root, ignore_errors=True)
+        return
+    writers: Dict[str, List[Tuple[int, int]]] = {}
+    for r, x in enumerate(res):
+        for (path, n) in x["writes"]:
+            writers.setdefault(os.path.normpath(path), []).append((r, n))
+    for path, ws in sorted(writers.items()):
+        if path == ".snapshot_metadata":
+            continue
+        if len(ws) > 1:
+            ctx.fail("seeded-ranks-same-location", f"{path} written {len(ws)} times (rank, bytes) = {ws} by identically seeded ranks",
+                     full, {"path": path, "writes": ws}, suite=suite)
+    man = res[0]["manifest"]
+    used: Dict[str, List[Tuple[int, int, str]]] = {}
+    for k, units in sorted(man.items()):
+        for (loc, lo, hi) in units:
+            f = os.path.join(root, "snap", loc)
+            if not os.path.isfile(f):
+                ctx.fail("missing-location", f"{k}: {loc} does not exist", full, {"key": k, "location": loc}, suite=suite)
+                continue
+            size = os.path.getsize(f)
+            if hi >= 0:
+                if hi > size:
+                    ctx.fail("range-outside-object", f"{k}: [{lo},{hi}) outside {loc} of {size} bytes", full, {"key": k}, suite=suite)
+                for (lo2, hi2, k2) in used.get(loc, []):
+                    if lo < hi2 and lo2 < hi:
+                        ctx.fail("seeded-ranks-overlapping-ranges", f"{k} [{lo},{hi}) and {k2} [{lo2},{hi2}) overlap in {loc}", full,
+                                 {"a": k, "b": k2, "location": loc}, suite=suite)
+                used.setdefault(loc, []).append((lo, hi, k))
+    for r, x in enumerate(res):
+        for pr in x["problems"]:
+            ctx.fail("seeded-ranks-wrong-restore", pr, full, pr, suite=suite)
+    if verbose:
+        for r in range(W):
+            print("rank", r, res[r])
+    shutil.rmtree(root, ignore_errors=True)
+    ctx.count("seeded.jobs")
+    ctx.count("seeded.slab_writes", sum(1 for p in writers if p.startswith("batched/")))
+    ctx.case(suite, dict(full, writes=len(writers)), nontrivial=any(p.startswith("batched/") for p in writers), key=full)
+
+
+SEEDED_CORPUS = [
+    {"W": 2, "seed": 0, "elems": [3, 5, 7], "slab": 0, "async": False},
+]
+
+
 def run(ctx: Ctx):
     for c in CORPUS:
         _check_case(ctx, c, "corpus")
+    jobs = list(SEEDED_CORPUS)
+    for _ in range(ctx.n(1, 12)):
+        jobs.append({"W": ctx.rng.choice([2, 2, 3]), "seed": ctx.rng.randrange(10 ** 6), "async": ctx.rng.random() < 0.3,
+                     "elems": [ctx.rng.randint(1, 40) for _ in range(ctx.rng.randint(2, 6))], "slab": ctx.rng.choice([0, 0, 64, 200])})
+    for i, cfg in enumerate(jobs):
+        _seeded_processes(ctx, cfg, i)
     n_safe, n_adv = ctx.n(350, 3000), ctx.n(300, 2500)
     for i in range(n_safe):
         if ctx.time_left() < 15:
@@ -395,7 +490,10 @@ def run(ctx: Ctx):
 
 
 def replay(ctx: Ctx, rec):
-    _check_case(ctx, rec["input"], "replay")
+    if rec["input"].get("seeded_processes"):
+        _seeded_processes(ctx, {k: v for k, v in rec["input"].items() if k != "seeded_processes"}, 0, suite="replay", verbose=True)
+    else:
+        _check_case(ctx, rec["input"], "replay")
     for f in ctx.failures:
         print("FAIL", f["sig"], f["what"], f["observed"])
     if not ctx.failures:
